@@ -205,8 +205,8 @@ class AugmentedFSSH(TrajectorySH):
 
     def hop_update(self, hop_from, hop_to):
         """Shift delR and delP after hops"""
-        dRb = self.delR[:, hop_to, hop_to]
-        dPb = self.delP[:, hop_to, hop_to]
+        dRb = np.copy(self.delR[:, hop_to, hop_to])
+        dPb = np.copy(self.delP[:, hop_to, hop_to])
 
         for i in range(self.model.nstates()):
             self.delR[:,i,i] -= dRb
